@@ -10,7 +10,10 @@ from statechecks import require_actions, validate_parallel
 def run(ctx):
     quick = ctx.quick()
     # 1. design level: every DAG over Nodes, any sharing, a crash anywhere, batches of Ideal puts
-    base = ctx.tlc("TrieCommit", cfg="TrieCommit_quick.cfg" if quick else "TrieCommit.cfg", coverage=not quick, timeout=1500)
+    # quick: all DAGs over 4 nodes with crashes and failing writes; thorough: the same with action coverage, plus all DAGs
+    # over 5 nodes with crashes (sibling states persisted in any order in both)
+    base = ctx.tlc("TrieCommit", cfg="TrieCommit_quick.cfg", coverage=not quick, timeout=1500)
+    big = None if quick else ctx.tlc("TrieCommit", cfg="TrieCommit.cfg", timeout=1700)
     require_actions(base, ["InsertTrie", "CommitBegin", "SkipKnown", "Descend", "PutNode", "Flush", "CommitEnd", "Crash", "WriteFails"])
     # negative control: a pre-order walk must break Closed (the invariant is not vacuous)
     neg = ctx.tlc("TrieCommit", cfg="TrieCommit_preorder.cfg", allow_violation=True)
@@ -20,6 +23,10 @@ def run(ctx):
     neg2 = ctx.tlc("TrieCommit", cfg="TrieCommit_dedup.cfg", allow_violation=True)
     if not neg2["error"] or not ("DurableKept" in neg2["error"] or "Closed" in neg2["error"]):
         raise Inconclusive("negative control: the flagged-node shortcut with failing writes did not violate durability in the model")
+    # third negative control: uncache that drops the flush-list up to the root loses sibling states
+    neg3 = ctx.tlc("TrieCommit", cfg="TrieCommit_prefixuncache.cfg", allow_violation=True)
+    if not neg3["error"] or not any(k in neg3["error"] for k in ("NothingLost", "DurableKept", "Closed")):
+        raise Inconclusive("negative control: prefix uncache with sibling states did not lose a node in the model")
     # 2. the real write sequences, every prefix re-opened by the real code
     drv = ctx.build("c03")
     procs = 4
@@ -33,12 +40,14 @@ def run(ctx):
                 "--blocks", str(blocks), "--mutations", str((2500 if k % 2 == 0 else 1500) if quick else (5000 if k % 2 == 0 else 2000)), "--accounts", str(300 if k < 2 else 120),
                 "--keys", str(14 if k < 2 else 30), "--salt", str(k),
                 # the first histories again, once per physical write, with that write returning an error
-                "--faultruns", str(2 if quick else 6)]
+                "--faultruns", str(2 if quick else 6),
+                # sibling states on one parent sharing the memory layer, persisted in every order
+                "--siblingruns", str(1 if quick else 4)]
         if os.environ.get("VERIF_C03_CORRUPT"):
             argv += ["--corrupt", os.environ["VERIF_C03_CORRUPT"]]
         argvs.append(argv)
     outs = ctx.run_parallel(argvs)
-    tot = {"writes": 0, "nodes": 0, "reopens": 0, "failedWrites": 0, "successAfterFailure": 0}
+    tot = {"writes": 0, "nodes": 0, "reopens": 0, "failedWrites": 0, "successAfterFailure": 0, "siblingPersists": 0}
     max_batches = 0
     kinds = {}
     for o in outs:
@@ -77,6 +86,8 @@ def run(ctx):
         vacuous.append("no commit was split over at least 3 batch writes")
     if tot["failedWrites"] == 0 or tot["successAfterFailure"] == 0:
         vacuous.append("no physical write failed / no commit reported success after a failed write")
+    if tot["siblingPersists"] == 0:
+        vacuous.append("no sibling state was persisted")
     if older_while_newer_absent == 0 or present == 0 or rewritten == 0:
         vacuous.append("no prefix with an older root on disk during a later commit / no root re-opened / no shared node")
     for k in ("SetData", "AddBalance", "SetNonce", "SetCode", "CloneStorage", "Suicide", "CreateAccount", "CodeOnlyUniqueCode", "CodeOnlySharedCode"):
@@ -101,6 +112,7 @@ def run(ctx):
         "crash_points": prefixes,
         "failed_writes_injected": tot["failedWrites"],
         "commits_reported_successful_after_a_failed_write": tot["successAfterFailure"],
+        "sibling_states_persisted_out_of_insertion_order_and_in_order": tot["siblingPersists"],
         "crash_points_inside_a_commit_with_older_roots_on_disk": older_while_newer_absent,
         "nodes_written": tot["nodes"],
         "nodes_written_again_shared": rewritten,
@@ -108,13 +120,14 @@ def run(ctx):
         "mutations_by_kind": kinds,
         "histories": procs * per,
         "blocks_per_history": blocks,
-        "states": base["distinct"] + neg["distinct"] + neg2["distinct"],
-        "transitions": base["generated"] + neg["generated"] + neg2["generated"],
+        "states": base["distinct"] + neg["distinct"] + neg2["distinct"] + neg3["distinct"] + (big["distinct"] if big else 0),
+        "transitions": base["generated"] + neg["generated"] + neg2["generated"] + neg3["generated"] + (big["generated"] if big else 0),
         "traces_validated_against_impl": procs * per,
         "events_validated": total,
         "action_coverage": base["coverage"],
         "negative_control_preorder_violates_Closed": True,
         "negative_control_put_once_flag_with_failing_write_violates_durability": True,
+        "negative_control_prefix_uncache_loses_sibling_state": True,
         "exhaustive": True,
         "explanation": "exhaustive over the prefixes of each recorded write sequence (every crash point between two physical writes); "
                        "plus, for the fault histories, every physical write failing once; "
@@ -128,6 +141,9 @@ def run(ctx):
         "one account in ten is a contract without any storage slot of its own (code, nonce, balance only), with code no other account has or code shared with storage-ful accounts",
         "expected content of a root = what the live AccountDB answered (Exist, nonce, balance, code, every slot of the universe) "
         "after IntermediateRoot(true) and before Commit(true) of that block",
+        "sibling states: for some histories 2-3 states are built on one persisted parent through real AccountDBs (disjoint accounts / "
+        "the same accounts / two identical states), AccountDB.Commit-ed into the shared memory layer and then persisted with "
+        "NodeDatabase.Commit in every order (also: first persist fails on its first write, another sibling is persisted, the first retried)",
         "write errors: for some histories every physical write in turn returns an error once (nothing of that batch reaches the store, "
         "the process goes on: retry of the same root for even write indices, next block on top for odd ones); every root whose commit "
         "REPORTED success is then re-opened from the store alone",
